@@ -157,6 +157,10 @@ class ReShimReal:
 
     @staticmethod
     def sub(pattern, repl, string, *a, **k):
+        # re.sub("", "", s) == s for every s (the empty pattern matches the empty string at every position and replaces it
+        # by the empty string): the default strip patterns are "", and realising s here would enumerate it value by value
+        if type(pattern) is str and pattern == "" and type(repl) is str and repl == "" and not a and not k:
+            return string
         with NoTracing():
             return _re.sub(deep_realize(pattern), deep_realize(repl), deep_realize(string))
 
